@@ -819,7 +819,7 @@ EVAL_EXPRS = [
     ("(a + b).abs().max() - (a - b).abs().min()", False), ("fs[0](`a b` - a.mean()).max()", False), ("(a > 0).astype(float).mean()", False),
     ("np.abs(a - b)", True), ("a.abs()", True), ("a + b", False),
     # a back-quoted name written directly against a keyword / word operator
-    ("[v * 2 for v in`a b`]", False), ("`a b`if True else b", False), ("b if False else`a b`", False), ("0 or`a b`", False), ("1 and`a b`", False),
+    ("np.array([v * 2 for v in`a b`])", True), ("`a b`if True else b", False), ("b if False else`a b`", False), ("0 or`a b`", False), ("1 and`a b`", False),
     ("`a b`is not None", False), ("np.array([v in`a b`.values for v in a.abs() + 2.5], dtype=float)", False), ("(lambda v: v)(b)if False else`a b`", False),
     ("np.where([not v for v in`a b`> 4], a, b)", True), ("g(1 if`a b`is None else`a b`)(b)", True),
 ]
